@@ -102,6 +102,9 @@ fn variants(rng: &mut Rng, k: u32) -> Vec<(&'static str, String)> {
         ("append-shared-offset", format!("exec 3>>f1; echo a{k} >&3; echo b{k} >f1; echo c{k} >&3; exec 3>&-; cat f1")),
         ("truncate-under-open-fd", format!("exec 3>f2; echo aaaa{k} >&3; : >f2; echo b{k} >&3; exec 3>&-; cat f2 | relay 64 | sink 0 0")),
         ("truncate-under-open-fd", format!("{{ echo hello{k}; : >f1; echo x{k}; }} >f1; cat f1 | sink 0 0")),
+("reader-writer-offsets", format!(": >|rw{k}; exec 3<rw{k}; echo data{k} >>rw{k}; read x <&3; echo \"[$x] ?=$?\"; read y <&3; echo \"?=$?\"; echo more{k} >>rw{k}; read z <&3; echo \"[$z] ?=$?\"; exec 3<&-")),
+        ("reader-writer-offsets", format!("exec 3<>rx{k}; echo abc{k} >&3; read x <&3; echo \"[$x] ?=$?\"; exec 3<&-; cat rx{k}")),
+        ("reader-writer-offsets", format!("echo hello{k} >|rt{k}; exec 3<rt{k}; read -r a <&3; : >|rt{k}; echo hi >>rt{k}; read b <&3; echo \"[$a][$b] ?=$?\"; exec 3<&-")),
         ("hidden-glob", "echo .*; echo .h*; echo d/.*".to_string()),
         ("symlink-open", "cat lnk; echo \"?=$?\"".to_string()),
         ("symlink-dir-prefix", "echo dlnk/*; cat dlnk/a.txt; echo \"?=$?\"".to_string()),
